@@ -872,6 +872,10 @@ class Interp:
                 and isinstance(sl.lower, ast.UnaryOp) and isinstance(sl.lower.op, ast.USub):
             return ListTail(base, self.eval(sl.lower.operand, fr))
         if isinstance(sl, ast.Slice):
+            if isinstance(base, (tuple, list)):           # a Python sequence of the program: ordinary slicing with constant bounds
+                lo, hi, st = (None if x is None else self.eval(x, fr) for x in (sl.lower, sl.upper, sl.step))
+                if all(x is None or (isinstance(x, int) and not isinstance(x, bool)) for x in (lo, hi, st)):
+                    return base[lo:hi:st]
             if sl.lower is None and sl.step is None and sl.upper is not None:
                 n = self.eval(sl.upper, fr)
                 return self.prefix(base, n)
@@ -1299,6 +1303,9 @@ class Interp:
     def x_numpy_where(self, a, k):
         return (Opaque("where"),)
 
+    def x_numpy_flatnonzero(self, a, k):
+        return self.x_numpy_where(a, k)[0]              # np.flatnonzero(mask) == np.where(mask)[0] for a 1-d mask
+
     def x_numpy_zeros_like(self, a, k):
         return self.const(0)
 
@@ -1593,6 +1600,8 @@ class Interp:
             fr.env[t.id] = v
         elif isinstance(t, (ast.Tuple, ast.List)):
             vals = list(v) if isinstance(v, (tuple, list)) else None
+            if isinstance(v, Obj) and v.cls is not None and any("NamedTuple" in b_ for b_ in v.cls.bases):
+                vals = [v.attrs[s_.target.id] for s_ in v.cls.node.body if isinstance(s_, ast.AnnAssign) and s_.target.id in v.attrs]
             if vals is None or len(vals) != len(t.elts):
                 raise Unsupported(f"cannot unpack {v!r} into {ast.unparse(t)}")
             for tt, vv in zip(t.elts, vals):
